@@ -9,6 +9,7 @@ package dh
 import (
 	"bytes"
 	"hash"
+	"math/big"
 	"unsafe"
 )
 
@@ -94,3 +95,7 @@ func verifPrfPlusSpec(prf hash.Hash, seed []byte, n int) []byte {
 	}
 	return out[:n]
 }
+
+// verifRandIntDrawn: x is exactly a value returned by a successful crypto/rand.Int call
+// made during the execution under verification (static obligation).
+func verifRandIntDrawn(x *big.Int) bool { return x != nil }
